@@ -2,6 +2,7 @@
 # tools/mut.sh <patch-file|-> <ID> [check args...]   : run a check against a scratch copy of /repo with a patch applied.
 # The copy lives under $TMPDIR (default /tmp), is removed afterwards; evidence/replays go to the scratch dir too.
 patch=$1; id=$2; shift 2
+case "$patch" in -|/*) ;; *) patch=$(pwd)/$patch;; esac
 d=$(mktemp -d ${TMPDIR:-/tmp}/h5mut.XXXXXX)
 mkdir -p $d/repo && cp -r /repo/html5lib $d/repo/ && find $d/repo -name __pycache__ -prune -exec rm -rf {} +
 if [ "$patch" != "-" ]; then (cd $d/repo && patch -p1 -s < "$patch") || { echo "patch failed"; rm -rf $d; exit 3; }; fi
